@@ -747,6 +747,7 @@ func (v *FnV) contractCallSig(st *State, call *ast.CallExpr, fc *FuncContract, n
 			vars[p.Name()] = args[i]
 		}
 	}
+	v.ghostArgs(st, call, fc, vars)
 	ord := v.fr().ord[call]
 	sc := &Scope{v: v, vars: vars, pkg: pkg, callee: true}
 	for k, cl := range fc.Requires {
@@ -762,7 +763,7 @@ func (v *FnV) contractCallSig(st *State, call *ast.CallExpr, fc *FuncContract, n
 		}
 		skipPre := false
 		for _, sk := range v.fc.Extra["skip"] {
-			if sk == "pre:"+fn.Name() {
+			if sk == "pre:"+fn.Name() || sk == "pre:"+fn.Name()+":"+lbl {
 				skipPre = true
 			}
 		}
